@@ -96,6 +96,8 @@ fn native_misc_registry0() -> Vec<(&'static str, fn(&mut crate::src::EnumSrc))> 
         ("nschema_E257", (|s: &mut crate::src::EnumSrc| crate::native_misc::schema_e257::<_, false>(s)) as fn(&mut crate::src::EnumSrc)),
         // n(nschema_E257_high, "C12", "derive WithSchema for an enum with 257 variants: Variant::discriminant is a u8", "the variant with index 256");
         ("nschema_E257_high", (|s: &mut crate::src::EnumSrc| crate::native_misc::schema_e257::<_, true>(s)) as fn(&mut crate::src::EnumSrc)),
+        // n(pairs_diff_trees, "C05,C13,C15", "diff_schema; diff_struct; diff_fields; diff_enum; diff_primitive; diff_vector; diff_array; diff_option (both argument orders)", "ordered pairs of schema trees of depth <= 2 (9 node kinds, <= 2 fields, <= 2 variants, names / layout annotations / discriminants / widths / array lengths varied)");
+        ("pairs_diff_trees", (|s: &mut crate::src::EnumSrc| crate::native_schemacodec::diff_tree_pairs(s)) as fn(&mut crate::src::EnumSrc)),
         // n(pairs_diff, "C05,C13,C15", "diff_schema; diff_enum; diff_fields; diff_primitive", "pairs of one-variant enums with <= 2 primitive fields; discriminants/widths from small domains");
         ("pairs_diff", (|s: &mut crate::src::EnumSrc| crate::schemapairs::diff_pairs(s)) as fn(&mut crate::src::EnumSrc)),
         // n(pairs_layout, "C09,C11", "Schema::layout_compatible; SchemaEnum/Variant/Field::layout_compatible", "pairs of one-variant enums with <= 2 primitive fields, two offsets");
